@@ -6,7 +6,7 @@ import Drx.Stxt
 import Drx.Fmap
 import Drx.TextSpec
 import DrxProofs.Py
-import DrxProofs.Idx
+import DrxProofs.Fields
 namespace Drx
 open Drx.Fmap Drx.Stxt Drx.TextSpec
 /-! ### styled text -/
